@@ -206,6 +206,23 @@ func (c04) Generate(tier string, yield func(*engine.Case) bool) {
 		}
 	}
 	recLit("")
+	// ---- two literals in ONE program that are equal, within the comparison tolerance, or just outside it
+	for _, a := range []float64{0, 1, 2, 0.1, 1e9, -3} {
+		for _, dlt := range []float64{0, 1e-10, 5e-10, 9.9e-10, 1e-9, 2e-9, -3e-10} {
+			x, y := gen.NumAtom(a), gen.NumAtom(a+dlt)
+			for _, t := range []*gen.Term{gen.Infix("-", y, x), gen.ListT(x, y), gen.CallT("string", gen.ListT(x, y)), gen.Infix("==", x, y),
+				gen.Infix("*", gen.Infix("-", y, x), gen.NumT(1e10)), gen.MapT(x, gen.StrT("p"), y, gen.StrT("q")), gen.CallT("max", x, y),
+				gen.ObjT([]string{"p", "q"}, x, y), gen.CallT("if", gen.BoolT(false), x, y)} {
+				emit(progCase("literal-pairs", t, real.EnvSpec{Rep: "raw"}, ""))
+			}
+		}
+	}
+	for _, pr := range [][2]string{{"a", "a"}, {"a", "A"}, {"", " "}, {"é", "é"}, {"x", "x "}} {
+		x, y := gen.StrT(pr[0]), gen.StrT(pr[1])
+		for _, t := range []*gen.Term{gen.Infix("+", x, y), gen.ListT(x, y), gen.Infix("==", x, y), gen.MapT(x, gen.NumT(1), y, gen.NumT(2)), gen.CallT("if", gen.BoolT(false), x, y)} {
+			emit(progCase("literal-pairs", t, real.EnvSpec{Rep: "raw"}, ""))
+		}
+	}
 	// ---- string literal forms
 	for _, sl := range []struct{ text, val string }{
 		{`""`, ""}, {`"a"`, "a"}, {`"\""`, `"`}, {`"\\"`, `\`}, {`"\t"`, "\t"}, {`"\r"`, "\r"}, {`"\n"`, "\n"}, {`"\b"`, "\b"}, {`"\f"`, "\f"},
@@ -355,7 +372,7 @@ func (c04) Run(c *engine.Case) *engine.Result {
 	d := loadProg(c)
 	h := real.StdHost()
 	p := observe(d.Term, d.Env, h, real.Backends, false)
-	res := &engine.Result{Execs: p.Execs, Outcome: p.outcomeSummary(), NonTrivial: d.Term.Op == "call" || d.Term.Op == "sub" || d.Term.Op == "mem" || c.Family == "numlit" || c.Family == "timelit"}
+	res := &engine.Result{Execs: p.Execs, Outcome: p.outcomeSummary(), NonTrivial: d.Term.Op == "call" || d.Term.Op == "sub" || d.Term.Op == "mem" || c.Family == "numlit" || c.Family == "timelit" || c.Family == "literal-pairs"}
 	res.Violations = p.judgeValues()
 	if p.RefErr != nil {
 		// the generator only produces well-typed programs: a reference rejection is a harness defect
